@@ -14,6 +14,15 @@ UNI = R.Universe({"fa": "/vws/D/test_fa.py", "fb": "/vws/D/test_fb.py"})
 YIELD = ["definitions", "file_definitions", "usages", "usage_by_fixture"]
 
 
+CONC_WATCHDOG = int(os.environ.get("VERIF_CONC_WATCHDOG", "240"))
+
+
+def set_watchdog(tier):
+    global CONC_WATCHDOG
+    if "VERIF_CONC_WATCHDOG" not in os.environ:
+        CONC_WATCHDOG = 240 if tier == "quick" else 2400
+
+
 def run_conc(cases, procs=8):
     os.makedirs(os.path.join(C.BUILD, "tmp"), exist_ok=True)
     chunks = [cases[i::procs] for i in range(procs)]
@@ -25,7 +34,7 @@ def run_conc(cases, procs=8):
         with open(path, "w") as fh:
             for c in ch:
                 fh.write(json.dumps(c) + "\n")
-        p = subprocess.Popen(["timeout", "600", C.HARNESS_BIN, "conc", path], env=C.scrubbed_env(),
+        p = subprocess.Popen(["timeout", str(CONC_WATCHDOG), C.HARNESS_BIN, "conc", path], env=C.scrubbed_env(),
                              stdout=subprocess.PIPE, stderr=subprocess.PIPE)
         ps.append((p, path, len(ch)))
     out = {}
@@ -41,7 +50,7 @@ def run_conc(cases, procs=8):
                 continue
             out[r["id"]] = r
         if p.returncode == 124:
-            out["__hang__"] = {"what": "an execution did not finish within the 600 s watchdog",
+            out["__hang__"] = {"what": "an execution did not finish within the %d s watchdog" % CONC_WATCHDOG,
                                "case": cases_in[min(len(lines), len(cases_in) - 1)]}
         elif p.returncode != 0:
             # the code under test took the harness process down (stack overflow / abort): that is data.
@@ -167,6 +176,7 @@ def exhaustive(cfg):
 
 
 def check_c09(tier):
+    set_watchdog(tier)
     V = C.Verdict("C09", tier, "model_checking")
     meta = exhaustive("Conc_c09.cfg")
     C.build_harness()
@@ -232,6 +242,7 @@ def check_c09(tier):
 
 
 def check_c10(tier):
+    set_watchdog(tier)
     V = C.Verdict("C10", tier, "model_checking")
     meta = exhaustive("Conc_c10.cfg")
     C.build_harness()
@@ -443,6 +454,7 @@ def gen_locks_mc(templates):
 
 
 def check_c12(tier):
+    set_watchdog(tier)
     import layouts as L
     V = C.Verdict("C12", tier, "model_checking")
     C.build_harness()
@@ -610,7 +622,7 @@ def check_c12(tier):
              "(4) an analysis and two request streams run on real threads under seeded random schedules",
         assumptions=["handlers of the binary crate are covered through the library entry points they call (code lens / inlay hint "
                      "hold a definitions.iter / usages.get guard across calls: read-under-read templates)",
-                     "watchdog = 600 s per harness process"])
+                     "watchdog = %d s per harness process (a batch normally finishes in < 20 s)" % CONC_WATCHDOG])
 
 
 def c10_binary(V, tier):
